@@ -252,15 +252,22 @@ func genLinCase(r *rand.Rand) *LinCase {
 }
 
 type linSched struct {
-	turn   []chan struct{}
-	back   chan struct{}
-	cur    int
-	atomic int
-	yields int
+	turn    []chan struct{}
+	back    chan struct{}
+	cur     int
+	atomic  int
+	yields  int
+	blocked []bool // the client's last yield was a failed attempt to take a lock
 }
 
 // runLin executes one case and returns the recorded history.
 func runLin(lb *LinBinding, c *LinCase, replay bool) (ops []porcupine.Operation, picks []int, yields int) {
+	ops, picks, yields, _ = runLinD(lb, c, replay)
+	return
+}
+
+// runLinD also reports whether the run ended with every live client waiting for a lock.
+func runLinD(lb *LinBinding, c *LinCase, replay bool) (ops []porcupine.Operation, picks []int, yields int, deadlock bool) {
 	var ch *simrt.Chooser
 	if replay {
 		ch = simrt.NewReplay(c.Picks)
@@ -282,7 +289,7 @@ func runLin(lb *LinBinding, c *LinCase, replay bool) (ops []porcupine.Operation,
 	switch c.Target {
 	case "defreg":
 		if lb.NewDefReg == nil {
-			return nil, nil, 0
+			return nil, nil, 0, false
 		}
 		syslog.SetLogger(simrt.SilentLogger{})
 		dr = lb.NewDefReg()
@@ -298,12 +305,14 @@ func runLin(lb *LinBinding, c *LinCase, replay bool) (ops []porcupine.Operation,
 	for i := 0; i < n; i++ {
 		sc.turn = append(sc.turn, make(chan struct{}))
 	}
+	sc.blocked = make([]bool, n)
 	simyield.Hook = func(site string) {
-		if sc.atomic > 0 {
+		if sc.atomic > 0 && site != simyield.Blocked {
 			return
 		}
 		sc.yields++
 		me := sc.cur
+		sc.blocked[me] = site == simyield.Blocked
 		sc.back <- struct{}{}
 		<-sc.turn[me]
 	}
@@ -412,16 +421,35 @@ func runLin(lb *LinBinding, c *LinCase, replay bool) (ops []porcupine.Operation,
 		if len(live) == 0 {
 			break
 		}
+		// clients waiting for a lock are not runnable until somebody else has made progress
+		var runnable []int
+		for _, i := range live {
+			if !sc.blocked[i] {
+				runnable = append(runnable, i)
+			}
+		}
+		if len(runnable) == 0 {
+			// every live client waits for a lock: deadlock (their goroutines stay parked)
+			deadlock = true
+			break
+		}
+		live = runnable
 		k := live[ch.Choose("lin", len(live))]
 		sc.cur = k
 		sc.turn[k] <- struct{}{}
 		<-sc.back
+		if !sc.blocked[k] {
+			// the client made progress (or finished): whoever waited for a lock may try again
+			for i := range sc.blocked {
+				sc.blocked[i] = false
+			}
+		}
 	}
 	for _, r := range results {
 		ops = append(ops, r...)
 	}
 	sort.Slice(ops, func(i, j int) bool { return ops[i].Call < ops[j].Call })
-	return ops, ch.Picks(), sc.yields
+	return ops, ch.Picks(), sc.yields, deadlock
 }
 
 func isMutation(kind string) bool {
@@ -526,6 +554,22 @@ func judgeLin(c *LinCase, ops []porcupine.Operation) (vs []model.Violation, inco
 	return vs, false
 }
 
+// runAndJudgeLin executes a case and judges it; a run in which every live client ends up
+// waiting for a lock is a violation of its own (no history to linearize).
+func runAndJudgeLin(lb *LinBinding, c *LinCase, replay bool) (ops []porcupine.Operation, picks []int, yields int, vs []model.Violation, inconclusive bool) {
+	ops, picks, yields, deadlock := runLinD(lb, c, replay)
+	if deadlock {
+		mdl := mapModel
+		if c.Target != "map" && c.Target != "defreg" {
+			mdl = setModel
+		}
+		return ops, picks, yields, []model.Violation{{Property: "C20", Oracle: "deadlock", Key: c.Target,
+			Detail: fmt.Sprintf("every client that has not finished waits for a lock that nobody is going to release (atomicRange=%v); completed operations: %s", c.AtomicRange, describeHistory(mdl, ops))}}, false
+	}
+	vs, inconclusive = judgeLin(c, ops)
+	return ops, picks, yields, vs, inconclusive
+}
+
 func describeHistory(m porcupine.Model, ops []porcupine.Operation) string {
 	s := ""
 	for _, op := range ops {
@@ -544,8 +588,7 @@ func linCaseExtra(c *LinCase) map[string]any {
 // minimiseLin drops clients and operations and zeroes picks while the same oracle persists.
 func minimiseLin(lb *LinBinding, c *LinCase, oracle string) *LinCase {
 	same := func(x *LinCase) bool {
-		ops, _, _ := runLin(lb, x, true)
-		vs, _ := judgeLin(x, ops)
+		_, _, _, vs, _ := runAndJudgeLin(lb, x, true)
 		for _, v := range vs {
 			if v.Oracle == oracle {
 				return true
@@ -613,7 +656,7 @@ func linsimBatch(lb *LinBinding, job *Job, n int, acc *statAcc, res *Result) {
 			progress(job, "linsim %d", i)
 		}
 		c := genLinCase(r)
-		ops, picks, yields := runLin(lb, c, false)
+		ops, picks, yields, vs, inc := runAndJudgeLin(lb, c, false)
 		c.Picks = picks
 		acc.Runs++
 		acc.Steps += yields
@@ -649,7 +692,6 @@ func linsimBatch(lb *LinBinding, job *Job, n int, acc *statAcc, res *Result) {
 			}
 			acc.Samples = append(acc.Samples, map[string]any{"engine": "linsim", "target": c.Target, "atomicRange": c.AtomicRange, "clients": c.Clients, "picks": len(picks), "history": describeHistory(mdl, ops)})
 		}
-		vs, inc := judgeLin(c, ops)
 		if inc {
 			acc.Inconcl++
 		}
@@ -660,8 +702,7 @@ func linsimBatch(lb *LinBinding, job *Job, n int, acc *statAcc, res *Result) {
 				continue
 			}
 			min := minimiseLin(lb, c, x.Oracle)
-			mops, _, _ := runLin(lb, min, true)
-			mvs, _ := judgeLin(min, mops)
+			_, _, _, mvs, _ := runAndJudgeLin(lb, min, true)
 			f := Finding{Violation: x, Case: &Case{Property: "C20", Engine: "linsim", Extra: linCaseExtra(min)}, Reproduced: true, Observed: x.Detail}
 			for _, mv := range mvs {
 				if mv.Oracle == x.Oracle {
@@ -689,7 +730,6 @@ func replayLinsim(lb *LinBinding, c *Case) []model.Violation {
 	if err := json.Unmarshal(b, &lc); err != nil || len(lc.Clients) == 0 {
 		return nil
 	}
-	ops, _, _ := runLin(lb, &lc, true)
-	vs, _ := judgeLin(&lc, ops)
+	_, _, _, vs, _ := runAndJudgeLin(lb, &lc, true)
 	return vs
 }
